@@ -2,8 +2,11 @@ package types
 
 import (
 	"bytes"
+	crand "crypto/rand"
 	"crypto/sha256"
 	"time"
+
+	"github.com/libp2p/go-libp2p/core/crypto"
 
 	"github.com/evstack/ev-node/internal/zzsym"
 	pb "github.com/evstack/ev-node/types/pb/evnode/v1"
@@ -215,6 +218,53 @@ func ZZ_C12_state_roundtrip() {
 		zzSameBytes(g.LastResultsHash, s.LastResultsHash) && zzSameBytes(g.AppHash, s.AppHash)
 	zzsym.Assert(ok, "state-roundtrip-equal")
 	zzsym.Reach("state-roundtrip")
+}
+
+// ZZ_C12_signed_roundtrip: SignedHeader and SignedData (block store, DA blob and
+// P2P path) with a real key, an arbitrary signer address (derived from the key
+// or any other bytes) and an arbitrary signature: decode(encode(x)) == x,
+// same bytes when re-encoded, signature verdict unchanged.
+func ZZ_C12_signed_roundtrip() {
+	_, pub, err := crypto.GenerateEd25519Key(crand.Reader)
+	if err != nil {
+		panic(err)
+	}
+	var addr []byte
+	switch zzsym.Pick("addr", 4) {
+	case 0:
+		addr = KeyAddress(pub)
+	case 1:
+		addr = zzsym.BytesN("addr20", 20)
+	case 2:
+		addr = zzsym.BytesN("addr1", 1)
+	case 3:
+		addr = []byte{}
+	}
+	sig := Signature(zzBytesMode("sig", 1+zzsym.Pick("sigmode", 3)))
+	h := Header{BaseHeader: BaseHeader{Height: zzsym.U64("height"), Time: zzsym.U64("time"), ChainID: "chain-1"},
+		DataHash: zzsym.BytesN("dh", 2), AppHash: zzsym.BytesN("ah", 2), ProposerAddress: addr}
+	sh := &SignedHeader{Header: h, Signature: sig, Signer: Signer{PubKey: pub, Address: addr}}
+	bz, err := sh.MarshalBinary()
+	zzsym.Assert(err == nil, "signed-header-marshal-ok")
+	var g SignedHeader
+	zzsym.Assert(g.UnmarshalBinary(bz) == nil, "signed-header-unmarshal-ok")
+	zzsym.Assert(zzHeaderEq(&sh.Header, &g.Header), "signed-header-roundtrip-header")
+	zzsym.Assert(bytes.Equal(g.Signature, sh.Signature), "signed-header-roundtrip-signature")
+	zzsym.Assert(g.Signer.PubKey != nil && g.Signer.PubKey.Equals(pub), "signed-header-roundtrip-key")
+	zzsym.Assert(zzSameBytes(g.Signer.Address, addr), "signed-header-roundtrip-address")
+	bz2, _ := g.MarshalBinary()
+	zzsym.Assert(bytes.Equal(bz, bz2), "signed-header-reencode-identical")
+	zzsym.Assert((sh.ValidateBasic() == nil) == (g.ValidateBasic() == nil), "signed-header-validity-unchanged")
+
+	sd := &SignedData{Data: Data{Txs: Txs{Tx(zzsym.BytesN("tx", 1))}}, Signature: sig, Signer: Signer{PubKey: pub, Address: addr}}
+	dz, err := sd.MarshalBinary()
+	zzsym.Assert(err == nil, "signed-data-marshal-ok")
+	var gd SignedData
+	zzsym.Assert(gd.UnmarshalBinary(dz) == nil, "signed-data-unmarshal-ok")
+	zzsym.Assert(zzDataEq(&sd.Data, &gd.Data), "signed-data-roundtrip-data")
+	zzsym.Assert(bytes.Equal(gd.Signature, sd.Signature), "signed-data-roundtrip-signature")
+	zzsym.Assert(gd.Signer.PubKey != nil && gd.Signer.PubKey.Equals(pub) && zzSameBytes(gd.Signer.Address, addr), "signed-data-roundtrip-signer")
+	zzsym.Reach("signed-roundtrip")
 }
 
 // ---- group 3: decoder totality on arbitrary decoded messages ---------------
